@@ -3,6 +3,7 @@ CONSTANTS
   Ids = {1, 2, 3, 4}
   Cfgs = {"c1", "c2", "c3", "c4", "c5", "c6", "r1", "r2", "r3", "r4"}
   OwnScaleCfgs = {"c3"}
+  ReadsSharedDirection = FALSE
   ShareDefaultScale = FALSE
   MaxLen = 64
 INVARIANT C10_Defined
